@@ -236,6 +236,42 @@ def early_outs(prog):
         else:
             out.append(inst("FS", key, OK if found_empty == "true" else VIOLATION, fn, None,
                             "no clauses ↦ %s%s" % (found_empty, "" if found_empty == "true" else " (the empty conjunction is true)")))
+        # every constant answer is justified by the matching test on the clause list: ⊤ only under "no clauses"
+        # (is_empty / len == 0 of the clause list, or the clause-combining helper returning None), ⊥ only under
+        # "some clause is empty"; the dominating branch facts of the block that produces the constant are inspected
+        bad = []
+        nconst = 0
+        for cs in te.calls:
+            if cs.callee.name not in ("true_ptr", "false_ptr") or cs.args:
+                continue
+            # is this constant a returned value (not the seed of a fold)?
+            dest = fn.blocks[cs.bb]["term"]["dest"]
+            returned = (dest["l"] == 0) or any(
+                st["k"] == "assign" and st["lhs"]["l"] == 0 and not st["lhs"]["proj"] and st["rv"]["k"] == "use" and
+                st["rv"]["op"]["k"] in ("move", "copy") and st["rv"]["op"]["place"]["l"] == dest["l"]
+                for bb2 in fn.cfg.reachable_from(cs.bb) for st in fn.blocks[bb2]["stmts"])
+            if not returned:
+                continue
+            facts = [(strip(c), val) for c, val, _, _ in te.facts_at(cs.bb)]
+            nconst += 1
+
+            def about_clauses(c):
+                s_ = show(c)
+                return (mir.is_call(c, "is_empty") and "clauses" in s_) or \
+                    (c[0] == "bin" and c[1] == "Eq" and "len(" in s_ and "clauses" in s_) or \
+                    ("compile_cnf_helper" in s_ or "collapse_clauses" in s_)
+            if cs.callee.name == "true_ptr":
+                just = [c for c, val in facts if about_clauses(c) and (val != "0" or "helper" in show(c) or "collapse" in show(c))]
+                if not just:
+                    bad.append("the compiler answers ⊤ under %s, not under `clauses().is_empty()`: a formula that still has "
+                               "(empty) clauses is declared valid" % ([show(c)[:40] + ("" if v != "0" else " = false") for c, v in facts] or ["no condition"]))
+            elif fn.name == "compile_cnf":
+                just = [c for c, val in facts if mir.is_call(c, "any") or (mir.is_call(c, "is_empty") and "clauses(" not in show(c))]
+                if not just:
+                    bad.append("the compiler answers ⊥ under %s, not under an empty-clause test"
+                               % ([show(c)[:40] for c, v in facts] or ["no condition"]))
+        out.append(inst("FS", "%s:constant-answers-justified" % fn.npath, VIOLATION if bad else OK, fn, None,
+                        bad[0] if bad else "%d constant answer(s), each under its clause-list test" % nconst))
         if fn.name == "compile_cnf":
             key = "%s:empty-clause" % fn.npath
             # the `any(|x| x.is_empty())` test: its true edge returns false_ptr
